@@ -35,6 +35,7 @@ const (
 	kindLongMax  = 14 // longest line the scanner accepts when followed by LF
 	kindLongOver = 15 // one byte more
 	kindLongPad  = 16 // acceptable length only after trimming
+	kindCtlFirst = 17 // a control byte is the first byte of the line (start of an ELF or gzip blob)
 )
 
 var longLines = map[int]string{}
@@ -44,6 +45,7 @@ func init() {
 	longLines[kindLongMax] = "||" + strings.Repeat("y", 65535-2-9) + ".example^"
 	longLines[kindLongOver] = "||" + strings.Repeat("z", 65536-2-9) + ".example^"
 	longLines[kindLongPad] = "  ||" + strings.Repeat("w", 65535-2-9-4) + ".example^  "
+	longLines[kindCtlFirst] = "\x7fELF\x02\x01"
 }
 
 func lineText(k int) string {
@@ -247,17 +249,30 @@ func runParser(c *lib.Ctx) {
 		}
 		return false
 	}
+	hasCtlFirst := func(lines []int) bool {
+		for _, k := range lines {
+			if k == kindCtlFirst {
+				return true
+			}
+		}
+		return false
+	}
 	var passes []pass
+	defer func() {
+		_ = hasCtlFirst
+	}()
 	if c.Quick() {
 		passes = []pass{
 			{"all 14 kinds, <=4 lines", all, 4, nil},
 			{"boundary-length lines with 4 short kinds, <=3 lines", []int{0, 2, 5, 8, kindLongMax, kindLongOver, kindLongPad}, 3, hasLong},
+			{"a line starting with a control byte with 6 short kinds, <=3 lines", []int{0, 1, 2, 4, 5, 10, kindCtlFirst}, 3, hasCtlFirst},
 		}
 	} else {
 		passes = []pass{
 			{"13 short kinds, <=6 lines", short, 6, nil},
 			{"all 14 kinds with at least one 70 KB line, <=4 lines", all, 4, hasLong},
 			{"boundary-length lines with 6 short kinds, <=3 lines", []int{0, 1, 2, 5, 8, 10, kindLongMax, kindLongOver, kindLongPad}, 3, hasLong},
+			{"a line starting with a control byte with 8 short kinds, <=4 lines", []int{0, 1, 2, 3, 4, 5, 7, 10, kindCtlFirst}, 4, hasCtlFirst},
 		}
 	}
 	idx := 0
